@@ -60,7 +60,9 @@ MANIFEST = {
             "reader entry point; truncation is enumerated at every byte "
             "offset of each sampled file. Oracle: independent strict scanner "
             "for written text and a three-valued reference reader for "
-            "damaged text.",
+            "damaged text; several reads in one simulated process (a failed "
+            "read must not influence the next one); the command line "
+            "readers (cnfgen dimacs, cnfshuffle) are load paths too.",
     "design_ref": "DESIGN.md 4.1",
     "note": "Sampling plus per-file enumeration of truncation points; the "
             "reference reader is trusted; real disks are not exercised.",
